@@ -286,7 +286,27 @@ fn check_loop(r: &Report, case: &loopdrv::LoopCase, index: u64) {
     r.outcome(format!("{}:{:?}", rep.durations.len(), rep.stats.as_ref().map(|s| s.time[0]).ok()));
     // recorded samples vs the clock: raw = end - start of each timed section
     let traces = parse_threads(&out.events);
-    let secs: Vec<&Section> = traces.iter().flat_map(|t| t.sections.iter()).collect();
+    // samples are stored round by round and, within a round, by position in the pool (0 = the caller)
+    let threads = case.effective_threads() as usize;
+    let secs: Vec<&Section> = if threads <= 1 {
+        traces.iter().flat_map(|t| t.sections.iter()).collect()
+    } else {
+        let mut by_pos: Vec<Option<&Vec<Section>>> = vec![None; threads];
+        for tr in traces.iter().filter(|t| !t.sections.is_empty()) {
+            if let Some(&pi) = out.pool_index.get(tr.thread as usize) {
+                if pi < threads {
+                    by_pos[pi] = Some(&tr.sections);
+                }
+            }
+        }
+        let rounds = by_pos.iter().map(|s| s.map_or(0, |s| s.len())).min().unwrap_or(0);
+        if by_pos.iter().any(|s| s.is_none()) || by_pos.iter().any(|s| s.unwrap().len() != rounds) {
+            // the threads could not be told apart by name: no verdict for this case
+            r.add(&r.excluded, 1);
+            return;
+        }
+        (0..rounds).flat_map(|k| by_pos.iter().map(move |s| &s.unwrap()[k])).collect()
+    };
     let recorded = rep.durations.len();
     if recorded > secs.len() {
         r.violation(Violation { sig: json!({"check":"loop","class":"phantom-samples"}), text: format!("{}: {recorded} samples recorded but only {} timed sections ran", case.describe(), secs.len()), case: case_json() });
@@ -481,6 +501,35 @@ fn loop_cases(thorough: bool) -> Vec<loopdrv::LoopCase> {
                                 }
                                 v.push(c);
                               }
+                            }
+                        }
+                    }
+                }
+            }
+        }
+    }
+    // several threads of which only some allocate (and which take different times): every stored sample
+    // must pair the duration and the allocation figures of one and the same thread's timed section
+    for (entry, ishape, oshape) in [(0, 0, 0), (2, 3, 3), (4, 3, 2)] {
+        for threads in [2usize, 3] {
+            for mask in 1u32..(1 << threads) {
+                for n in [2u32, 4] {
+                    for s in [1u32, 2] {
+                        for alloc in [2usize, 3, 6] {
+                            for skew in [0u64, 2000] {
+                                if !thorough && (threads == 3 && (s == 2 || alloc == 3)) {
+                                    continue;
+                                }
+                                let mut c = LoopCase::basic(entry, ishape, oshape);
+                                c.threads = threads;
+                                c.alloc_threads = if mask == (1 << threads) - 1 { None } else { Some(mask) };
+                                c.sample_count = Some(n);
+                                c.sample_size = Some(s);
+                                c.cost[SITE_CALL] = vec![3000, 1000, 2000];
+                                c.thread_skew = skew;
+                                c.alloc[SITE_CALL] = alloc;
+                                c.horizon = 2000;
+                                v.push(c);
                             }
                         }
                     }
